@@ -14,6 +14,7 @@ class RemoveGroupsNotificationProtocolEntity(GroupsNotificationProtocolEntity):
                  subject,
                  participants):
         super(RemoveGroupsNotificationProtocolEntity, self).__init__(_id, _from, timestamp, notify, participant, offline)
+        self.mode = None
         self.setGroupProps(subject, participants)
 
     def setGroupProps(self,
@@ -41,6 +42,8 @@ class RemoveGroupsNotificationProtocolEntity(GroupsNotificationProtocolEntity):
 
         removeNode.addChildren(participants)
         node.addChild(removeNode)
+        if self.mode is not None:
+            node["mode"] = self.mode
 
         return node
 
@@ -51,7 +54,9 @@ class RemoveGroupsNotificationProtocolEntity(GroupsNotificationProtocolEntity):
         for p in removeNode.getAllChildren("participant"):
             participants.append(p["jid"])
 
-        return RemoveGroupsNotificationProtocolEntity(
+        entity = RemoveGroupsNotificationProtocolEntity(
             node["id"], node["from"], node["t"], node["notify"], node["participant"], node["offline"],
             removeNode["subject"], participants
         )
+        entity.mode = node["mode"]
+        return entity
